@@ -642,6 +642,12 @@ def explore_profiles(prop, tier, seed, n_quick):
             tp = h.create_tree_profile()
             o.put('tpfull', ob.profileS(tp.treemap))
             if prop == 'C09':
+                if k % 5 == 0:
+                    # the documented defaults (as_html=True): an outfile alone gives the HTML export of this very profile
+                    h.create_tree_profile(outfile=ex.tmp + '/tpd.html')
+                    tp.export_as_html(ex.tmp + '/tpd2.html')
+                    if orc.html_tree_data(ex.tmp + '/tpd.html') != orc.html_tree_data(ex.tmp + '/tpd2.html'):
+                        bad.append('create_tree_profile(outfile=...) with default arguments does not write the HTML export of the profile')
                 tp.export_as_html(ex.tmp + '/tpj.html')
                 data = orc.html_tree_data(ex.tmp + '/tpj.html')
                 items = []
@@ -853,6 +859,9 @@ def c12(tier, seed):
         if k % 6 == 5:
             D = gen.deep_chain_dataset(ex.rng)      # duplications whose copies are long single-child chains
             ex.res.count('deep_chain_cases')
+        elif k % 6 == 3:
+            D = gen.chain_above_dup_dataset(ex.rng)     # single-child levels above a HOG whose only content is one duplication
+            ex.res.count('chain_above_duplication_cases')
         elif k % 6 == 4:
             D = std_dataset(ex.rng)                 # paralogGroups with a single member: exported and re-loaded like any other
             D.groups, nsm = gen.single_member_pgs(ex.rng, D.groups)
